@@ -4,6 +4,7 @@
 package bundle
 
 import (
+	"os"
 	"runtime"
 	"strings"
 	"bytes"
@@ -672,6 +673,9 @@ func checkReadTotal(c *core.Ctx, blob []byte, pi *core.PanicInfo, alloc uint64) 
 		peak := core.MeasurePeak(func() { keep, _ = bundle.Read(bytes.NewReader(blob)) })
 		runtime.KeepAlive(keep)
 		c.Event("cumulative allocation %d bytes on a %d-byte input: peak re-measured", alloc, len(blob))
+		if dp := os.Getenv("VERIF_DUMPBLOB"); dp != "" {
+			os.WriteFile(dp, blob, 0644)
+		}
 		if peak > core.AllocBudget(len(blob)) {
 			// The reader hands back one independent exchange - own copy of the body, own header
 			// map - per index location, so a file whose index designates the same response
@@ -686,7 +690,9 @@ func checkReadTotal(c *core.Ctx, blob []byte, pi *core.PanicInfo, alloc uint64) 
 						listed += l.Len
 					}
 				}
-				if listed > 4*uint64(len(blob)) && peak <= core.AllocBudget(len(blob))+4*listed {
+				// (16 x: the decoder keeps every decoded string, however short, in a buffer of its
+				// own of at least half a kilobyte)
+				if listed > 4*uint64(len(blob)) && peak <= core.AllocBudget(len(blob))+16*listed {
 					c.Violation("alloc-by-aliased-index-entries", "bundle.Read", "bundle.Read needs %d bytes of live memory at its peak on a %d-byte input whose index lists locations of %d bytes in all (the same response designated many times: one copy per location)", peak, len(blob), listed)
 				}
 			}
